@@ -49,11 +49,18 @@ type Scenario struct {
 	GapUS      int       `json:"gap_us"` // scale of the idle time between arrivals
 	Faults     []Fault   `json:"faults,omitempty"`
 	Restarts   []Restart `json:"restarts,omitempty"`
+	// Strict selects the literal reading of the statement (never set by the
+	// generator; used to replay the two observations listed in Assumptions):
+	// only injected restarts excuse a backward step or a repeated delivery, and
+	// every packet displaced by fewer than BufferSize positions must be
+	// delivered even when an older loss is still unresolved.
+	Strict bool `json:"strict,omitempty"`
 }
 
 const (
-	maxN     = 12000
+	maxN     = 8000
 	maxBurst = 30000
+	maxSpan  = 24000 // bursts are shortened so that an incarnation stays below maxSpan+maxN < 2^15 sequence numbers
 )
 
 func effBuf(b int) int {
@@ -396,15 +403,15 @@ func init() {
 	}
 	f.Excluded = []string{
 		"BufferSize that is not a power of two",
-		"loss bursts of 2^15 or more sequence numbers (in 16-bit arithmetic they are a jump backwards)",
+		"loss bursts of 2^15 or more sequence numbers (in 16-bit arithmetic they are a jump backwards) and sender incarnations spanning 2^15 or more sequence numbers (a late packet would compare as ahead)",
 		"displacement or duplication across a sender restart (a packet of the old incarnation arriving after the first packet of the new one)",
 		"jitter, SSRC fields, sender-report fields of the receiver report, PacketNTP (C15)",
 		"sender reports (ProcessSenderReport is not called)",
 	}
 	f.Rule = "scenario = mode (unreliable 70% / reliable) x BufferSize (0=default, 1..512 powers of two) x start sequence number (45% chosen so that the 65535->0 wrap falls at a uniformly chosen position inside the run, 10% edge values, else uniform over all 65536) x 1..3 sender incarnations (restart jump far backwards / far forwards / about half the sequence space / near) x explicit per-packet link fates (drop, burst, dup, delay, block delay, pause; each kind enabled per run with its own density) x report period 5..100 ms and pacing; a tail of BufferSize+2.. undisturbed packets ends the run. A run is non-trivial when at least one link fault or restart fired, at least BufferSize+2 packets were delivered and at least one receiver report was captured. Two runs are distinct when the hash of their (arrival, deliveries, lost) event sequence and captured reports differs."
 	f.Assumptions = []string{
-		"'detected sender restart' is read with the statement's own bound: BufferSize+1 consecutive arrivals that are all at or behind the last delivered sequence number are a restart as far as any receiver can tell, so a backward step of the delivered sequence (or a repeated delivery) at such an arrival is accepted, whether the scenario injected a restart or the run of stale packets was made of duplicates and late packets; a backward step anywhere else is a violation",
-		"oracle 2 (displaced packet is delivered) is asserted for a packet P only when (a) the incarnation it belongs to is already being followed (an earlier packet of it was delivered; for the first incarnation: P is not the very first arrival's predecessor), (b) every packet that overtook P lies within BufferSize-1 sequence numbers of P, (c) when P was first overtaken the receiver had delivered P's immediate predecessor, i.e. P's lateness was the only open gap, (d) at least one packet BufferSize or more sequence numbers after P arrives later in the same incarnation (so the receiver had to decide), (e) no (accepted) restart detection happened between P being overtaken and P being delivered. Packets that are late while an older loss is still unresolved are counted in probe o2_literal_miss when dropped, not reported (see the final report of the author)",
+		"'detected sender restart' is read with the statement's own bound: BufferSize+1 consecutive arrivals that are all at or behind the last delivered sequence number are a restart as far as any receiver can tell, so a backward step of the delivered sequence (or a repeated delivery) at such an arrival is accepted, whether the scenario injected a restart or the run of stale packets was made of duplicates and late packets; a backward step anywhere else is a violation (a scenario with \"strict\": true accepts only injected restarts: with BufferSize 1 two extra copies of one packet are then reported as a duplicate delivery)",
+		"oracle 2 (displaced packet is delivered) is asserted for a packet P only when (a) the incarnation it belongs to is already being followed (an earlier packet of it was delivered; for the first incarnation: P is not the very first arrival's predecessor), (b) every packet that overtook P lies within BufferSize-1 sequence numbers of P, (c) when P was first overtaken the receiver had delivered P's immediate predecessor, i.e. P's lateness was the only open gap, (d) at least one packet BufferSize or more sequence numbers after P arrives later in the same incarnation (so the receiver had to decide), (e) no (accepted) restart detection happened between P being overtaken and P being delivered. Packets that are late while an older loss is still unresolved are counted in probe o2_literal_miss when dropped and reported only in scenarios with \"strict\": true (BufferSize 4, packet k lost, packet k+1 arriving after k+4: the receiver flushes at k+4 and then discards k+1 although it is displaced by 3 < 4 positions)",
 		"packets waiting in the reorder buffer when a restart is detected may be discarded (the statement's exception for restarts is taken to cover them)",
 		"what is reported as lost by the call that crosses an injected restart or an accepted restart detection is not constrained; Stats().Lost and TotalLost are compared with the sum of the values returned by ProcessPacket2, and that sum with the skipped sequence numbers on every other call",
 		"the cycle count of the extended highest sequence number after a restart is not constrained: the first report after a restart is only checked in its low 16 bits and re-bases the model",
